@@ -213,6 +213,13 @@ def check(pid, tier='quick', seed=0, shared=None, write_evidence=True, quiet=Fal
                 inconclusive.append(f'{wname}: lemma {fname} for [{lab}] not found in the Verus breakdown')
                 continue
             solver_us_box[0] += hits[0].get('time_micros') or 0
+            if not ok and '.legacy-storage-key-' in lab:
+                # an assumption of this world's store MODEL (two layouts share one key) does not hold on this tree: everything the
+                # model proves about the migration is undecided; the bounded stand-in runs the real migration on a pre-upgrade
+                # store written under the deployed keys
+                inconclusive.append(f'{wname}: the store model assumes that {fname} holds ([{lab}]: a legacy handle has the namespace of its '
+                                    f'successor); it does not on this tree, so the migration proofs are undecided')
+                continue
             ob = {'id': f'{wname}:lemma {fname}:{lab}', 'label': lab, 'function': f'lemma {fname}', 'discharged': ok}
             obligations.append(ob)
             functions.append({'function': f'lemma {fname}', 'world': wname, 'file': 'verif/contracts (spec)', 'smt_time_us': hits[0].get('time_micros'), 'rlimit': hits[0].get('rlimit')})
